@@ -163,7 +163,7 @@ def f64_calls(fn, name):
 
 
 def eval_expr_gates(chk, F):
-    fn = F.find(CORE, "runtime::eval::eval_expr")
+    fn = F.find(CORE, "runtime::eval::eval_expr", inline=True, keep=("Option::<T>", "Iterator", "bool::then"))
     fk = "rink_core::runtime::eval::eval_expr"
     # two-argument functions: same dimensionality of exactly the two arguments
     for name in ("hypot", "atan2"):
